@@ -4,9 +4,7 @@
 D="$1"; W=/tmp/confirm_$$
 git -C /repo worktree add --detach $W HEAD >/dev/null 2>&1 || { echo "$D: worktree failed"; exit 2; }
 cd $W
-if ! git apply "$D/patch.diff" 2>/dev/null; then
-  if ! git apply --3way "$D/patch.diff" >/dev/null 2>&1; then echo "$D: APPLY-FAILED"; cd /; git -C /repo worktree remove --force $W; exit 3; fi
-fi
+if ! git apply "$D/patch.diff" 2>/dev/null; then echo "$D: APPLY-FAILED"; cd /; git -C /repo worktree remove --force $W; exit 3; fi
 T=$(PYTHONPATH=$W /venv/bin/python -m pytest -q -p no:cacheprovider -x --timeout=900 2>&1 | tail -1)
 PYTHONPATH=$W /venv/bin/python "$D/demo.py" >/dev/null 2>&1; R1=$?
 git checkout -q -- . ; git reset -q --hard HEAD
